@@ -104,4 +104,887 @@ theorem append_list {c : Cfg α κ} {l l' : KL α κ} (h : Coh c l) (x : α)
     · cases ha
     · cases ha; exact pyInsert_length _ _
 
+/-! ## by-key access is a linear scan -/
+
+/-- `l[k]` / `get(k)` return exactly the item a linear scan of the list finds. -/
+theorem getKey_is_scan {c : Cfg α κ} {l : KL α κ} (h : Coh c l) (k : κ) :
+    dictGet l.dict k = l.list.find? (fun x => c.key x == k) := by
+  cases hf : l.list.find? (fun x => c.key x == k) with
+  | none =>
+    rw [dictGet_eq_none_iff, hasKey_false_iff]
+    intro x hx
+    have := (h.dictIff k x).1 hx
+    have hn := List.find?_eq_none.1 hf x this.1
+    simp [this.2] at hn
+  | some x =>
+    rw [dictGet_eq_some_iff _ h.dictNodup]
+    have hx := List.mem_of_find?_eq_some hf
+    have hk : c.key x = k := by simpa using List.find?_some hf
+    exact (h.dictIff k x).2 ⟨hx, hk⟩
+
+/-- `index_for_key` is the position a linear scan finds; KeyError exactly when no item has the key. -/
+theorem indexForKey_is_scan {c : Cfg α κ} {l : KL α κ} (h : Coh c l) (k : κ) :
+    indexForKey c l k =
+      match l.list.findIdx? (fun x => c.key x == k) with
+      | some i => .ok i
+      | none => .error .keyError := by
+  unfold indexForKey
+  cases hf : l.list.findIdx? (fun x => c.key x == k) with
+  | some i => 
+    have : hasKey l.dict k = true := by
+      rw [hasKey_iff_scan h]
+      obtain ⟨x, hx, hk⟩ := (findIdx?_key_eq_some_iff c.key h.keysNodup k i).1 hf
+      exact ⟨x, List.mem_of_getElem? hx, hk⟩
+    simp [this]
+  | none => split <;> rfl
+
+/-- `keys()` holds exactly the keys of the listed items (as a set; order is dict insertion order). -/
+theorem keys_is_scan {c : Cfg α κ} {l : KL α κ} (h : Coh c l) (k : κ) :
+    k ∈ l.dict.map (·.1) ↔ k ∈ l.list.map c.key := by
+  rw [← hasKey_iff_mem_keys, hasKey_iff_scan h, List.mem_map]
+
+theorem keys_length {c : Cfg α κ} {l : KL α κ} (h : Coh c l) : l.dict.length = l.list.length := by
+  have h1 : (l.dict.map (·.1)).Perm (l.list.map c.key) :=
+    (List.perm_ext_iff_of_nodup h.dictNodup h.keysNodup).2 (fun k => keys_is_scan h k)
+  simpa using h1.length_eq
+
+/-! ## delete -/
+
+theorem delIdx_refines {c : Cfg α κ} {l : KL α κ} (i : Int) :
+    delIdx c l i =
+      match pyIdx l.list.length i with
+      | none => .error .indexError
+      | some k => match l.list[k]? with
+        | none => .error .indexError
+        | some x => .ok ⟨l.list.eraseIdx k, dictDel l.dict (c.key x)⟩ := rfl
+
+theorem coh_delIdx {c : Cfg α κ} {l l' : KL α κ} (h : Coh c l) (i : Int)
+    (hd : delIdx c l i = .ok l') : Coh c l' := by
+  unfold delIdx at hd
+  split at hd
+  · cases hd
+  · rename_i k hk
+    split at hd
+    · cases hd
+    · rename_i x hx
+      cases hd
+      have hlt : k < l.list.length := pyIdx_lt hk
+      have hxe : l.list[k] = x := by
+        have : l.list[k]? = some l.list[k] := by simp [hlt]
+        rw [this] at hx; exact Option.some.inj hx
+      have hnd := nodup_of_nodup_map_key c.key h.keysNodup
+      have hmem := mem_eraseIdx_of_nodup l.list k hlt hnd
+      have hxm : x ∈ l.list := hxe ▸ List.getElem_mem _
+      refine ⟨?_, ?_, nodup_keys_dictDel _ _ h.dictNodup, ?_⟩
+      · exact List.Nodup.sublist ((List.eraseIdx_sublist _ _).map c.key) h.keysNodup
+      · intro k' y
+        simp only [mem_dictDel, h.dictIff, hmem, hxe]
+        constructor
+        · rintro ⟨⟨hy, hk'⟩, hne⟩
+          exact ⟨⟨hy, fun hyx => hne (hk' ▸ hyx ▸ rfl)⟩, hk'⟩
+        · rintro ⟨⟨hy, hne⟩, hk'⟩
+          refine ⟨⟨hy, hk'⟩, ?_⟩
+          intro hkk
+          exact hne (eq_of_key_eq c.key h.keysNodup hy hxm (hk'.trans hkk))
+      · intro y hy
+        exact h.typed y ((hmem y).1 hy).1
+
+theorem coh_delKey {c : Cfg α κ} {l l' : KL α κ} (h : Coh c l) (k : κ)
+    (hd : delKey c l k = .ok l') : Coh c l' := by
+  unfold delKey at hd
+  split at hd
+  · cases hd
+  · exact coh_delIdx h _ hd
+
+/-- `del l[k]` removes exactly the item a scan finds (KeyError when there is none). -/
+theorem delKey_refines {c : Cfg α κ} {l : KL α κ} (h : Coh c l) (k : κ) :
+    delKey c l k =
+      match l.list.findIdx? (fun x => c.key x == k) with
+      | none => .error .keyError
+      | some i => delIdx c l (Int.ofNat i) := by
+  unfold delKey
+  rw [indexForKey_is_scan h]
+  cases l.list.findIdx? (fun x => c.key x == k) <;> rfl
+
+/-! ## assignment -/
+
+open Classical in
+/-- `l[i] = x`: IndexError when out of range, TypeError for an inadmissible item,
+ValueError exactly when another position already holds the key; otherwise the plain
+`list.__setitem__` result. -/
+theorem setIdx_refines {c : Cfg α κ} {l : KL α κ} (h : Coh c l) (i : Int) (x : α) :
+    setIdx c l i x =
+      match pyIdx l.list.length i with
+      | none => .error .indexError
+      | some k =>
+        if c.okItem x = false then .error .typeError
+        else if ∃ j y, j ≠ k ∧ l.list[j]? = some y ∧ c.key y = c.key x then .error .valueError
+        else .ok ⟨l.list.set k x,
+                  dictAdd (dictDel l.dict (c.key (l.list[k]?.getD x))) (c.key x) x⟩ := by
+  unfold setIdx
+  cases hk : pyIdx l.list.length i with
+  | none => rfl
+  | some k =>
+    have hlt : k < l.list.length := pyIdx_lt hk
+    have hget : l.list[k]? = some l.list[k] := by simp [hlt]
+    simp only [hget, Option.getD_some]
+    by_cases hok : c.okItem x = true
+    · simp only [hok, Bool.not_true, Bool.false_eq_true, if_false, Bool.true_eq_false]
+      by_cases hdup : ∃ j y, j ≠ k ∧ l.list[j]? = some y ∧ c.key y = c.key x
+      · obtain ⟨j, y, hjk, hy, hyk⟩ := hdup
+        have hym : y ∈ l.list := List.mem_of_getElem? hy
+        have hne : c.key x ≠ c.key l.list[k] := by
+          intro he
+          have : y = l.list[k] := eq_of_key_eq c.key h.keysNodup hym (List.getElem_mem _) (hyk.trans he)
+          have hnd := nodup_of_nodup_map_key c.key h.keysNodup
+          have hjlt : j < l.list.length := by
+            rcases Nat.lt_or_ge j l.list.length with hh | hh
+            · exact hh
+            · simp [List.getElem?_eq_none hh] at hy
+          have hyj : l.list[j] = y := by
+            have : l.list[j]? = some l.list[j] := by simp [hjlt]
+            rw [this] at hy; exact Option.some.inj hy
+          exact hjk ((List.Nodup.getElem_inj_iff hnd).1 (hyj.trans this))
+        have hhas : hasKey l.dict (c.key x) = true := (hasKey_iff_scan h _).2 ⟨y, hym, hyk⟩
+        have hbne : (c.key x != c.key l.list[k]) = true := by simpa using hne
+        rw [if_pos (by simp [hbne, hhas]), if_pos ⟨j, y, hjk, hy, hyk⟩]
+      · have hcond : (c.key x != c.key l.list[k] && hasKey l.dict (c.key x)) = false := by
+          rw [Bool.and_eq_false_iff]
+          by_cases he : c.key x = c.key l.list[k]
+          · left; simp [he]
+          · right
+            rw [← Bool.not_eq_true]; intro ht
+            obtain ⟨y, hym, hyk⟩ := (hasKey_iff_scan h _).1 ht
+            rcases List.getElem_of_mem hym with ⟨j, hj, rfl⟩
+            apply hdup
+            refine ⟨j, l.list[j], ?_, by simp [hj], hyk⟩
+            intro hjk; subst hjk; exact he hyk.symm
+        rw [if_neg (by simp [hcond]), if_neg hdup]
+    · simp at hok; simp [hok]
+
+theorem coh_setIdx {c : Cfg α κ} {l l' : KL α κ} (h : Coh c l) (i : Int) (x : α)
+    (hs : setIdx c l i x = .ok l') : Coh c l' := by
+  rw [setIdx_refines h] at hs
+  split at hs
+  · cases hs
+  · rename_i k hk
+    split at hs
+    · cases hs
+    · rename_i hok
+      split at hs
+      · cases hs
+      · rename_i hdup
+        cases hs
+        have hlt : k < l.list.length := pyIdx_lt hk
+        have hget : l.list[k]? = some l.list[k] := by simp [hlt]
+        simp only [hget, Option.getD_some]
+        have hnd := nodup_of_nodup_map_key c.key h.keysNodup
+        have holdm : l.list[k] ∈ l.list := List.getElem_mem _
+        have huniq : ∀ j, l.list[j]? = some l.list[k] → j = k := by
+          intro j hj
+          have hjlt : j < l.list.length := by
+            rcases Nat.lt_or_ge j l.list.length with hh | hh
+            · exact hh
+            · simp [List.getElem?_eq_none hh] at hj
+          have : l.list[j] = l.list[k] := by
+            have h2 : l.list[j]? = some l.list[j] := by simp [hjlt]
+            rw [h2] at hj; exact Option.some.inj hj
+          exact (List.Nodup.getElem_inj_iff hnd).1 this
+        have hmem := fun y => mem_set_iff_of_get (x := x) (y := y) hget huniq
+        -- no other position holds the new key
+        have hother : ∀ y ∈ l.list, y ≠ l.list[k] → c.key y ≠ c.key x := by
+          intro y hy hne hyk
+          rcases List.getElem_of_mem hy with ⟨j, hj, rfl⟩
+          apply hdup
+          refine ⟨j, l.list[j], ?_, by simp [hj], hyk⟩
+          intro hjk; subst hjk; exact hne rfl
+        refine ⟨?_, ?_, ?_, ?_⟩
+        · -- keys of the new list are still unique
+          have hp := (perm_set_eraseIdx l.list k hlt x).map c.key
+          rw [hp.nodup_iff, List.map_cons, List.nodup_cons]
+          refine ⟨?_, List.Nodup.sublist ((List.eraseIdx_sublist _ _).map c.key) h.keysNodup⟩
+          intro hm
+          obtain ⟨y, hy, hyk⟩ := List.mem_map.1 hm
+          have := (mem_eraseIdx_of_nodup l.list k hlt hnd y).1 hy
+          exact hother y this.1 this.2 hyk
+        · intro k' y
+          simp only [mem_dictAdd, mem_dictDel, h.dictIff, hmem]
+          constructor
+          · rintro (⟨⟨hy, hk'⟩, hne⟩ | ⟨hk', hy⟩)
+            · refine ⟨Or.inr ⟨hy, ?_⟩, hk'⟩
+              intro hyo; exact hne (hk' ▸ hyo ▸ rfl)
+            · subst hy; exact ⟨Or.inl rfl, hk'.symm⟩
+          · rintro ⟨hy | ⟨hy, hne⟩, hk'⟩
+            · subst hy; exact Or.inr ⟨hk'.symm, rfl⟩
+            · refine Or.inl ⟨⟨hy, hk'⟩, ?_⟩
+              intro hkk
+              exact hne (eq_of_key_eq c.key h.keysNodup hy holdm (hk'.trans hkk))
+        · apply nodup_keys_dictAdd _ _ _ (nodup_keys_dictDel _ _ h.dictNodup)
+          intro hm
+          rw [keys_dictDel, List.mem_filter] at hm
+          obtain ⟨hm1, hm2⟩ := hm
+          obtain ⟨y, hy, hyk⟩ := (hasKey_iff_scan h _).1 ((hasKey_iff_mem_keys _ _).2 hm1)
+          by_cases hyo : y = l.list[k]
+          · subst hyo; simp [hyk] at hm2
+          · exact hother y hy hyo hyk
+        · intro y hy
+          rcases (hmem y).1 hy with hy | ⟨hy, _⟩
+          · subst hy; simpa using hok
+          · exact h.typed y hy
+
+theorem coh_setKey {c : Cfg α κ} {l l' : KL α κ} (h : Coh c l) (k : κ) (x : α)
+    (hs : setKey c l k x = .ok l') : Coh c l' := by
+  unfold setKey at hs
+  split at hs
+  · cases hs
+  · exact coh_setIdx h _ _ hs
+
+/-! ## extend / += -/
+
+/-- Characterisation of the staging loop of `extend`. -/
+theorem stage_ok_iff (c : Cfg α κ) (l : KL α κ) : ∀ (xs : List α) (st st' : List (κ × α)),
+    stage c l xs st = .ok st' ↔
+      (st' = st ++ xs.map (fun x => (c.key x, x)) ∧ (∀ x ∈ xs, c.okItem x = true) ∧
+       (∀ x ∈ xs, hasKey l.dict (c.key x) = false) ∧
+       (∀ x ∈ xs, hasKey st (c.key x) = false) ∧ (xs.map c.key).Nodup)
+  | [], st, st' => by
+    simp only [stage, List.map_nil, List.append_nil, List.not_mem_nil, false_imp_iff, implies_true,
+      List.nodup_nil, and_true]
+    constructor
+    · intro h; cases h; rfl
+    · intro h; rw [h]
+  | x :: xs, st, st' => by
+    unfold stage
+    by_cases hok : c.okItem x = true
+    · by_cases hd : hasKey l.dict (c.key x) = true
+      · simp [hok, hd]
+      · by_cases hs : hasKey st (c.key x) = true
+        · simp [hok, hs]
+        · simp only [Bool.not_eq_true] at hd hs
+          simp only [hok, hd, hs, Bool.not_true, Bool.false_eq_true, if_false, Bool.or_self]
+          rw [stage_ok_iff c l xs]
+          simp only [List.map_cons, List.mem_cons, forall_eq_or_imp, hok, hd, hs, true_and,
+            List.nodup_cons, dictAdd, List.append_assoc, List.singleton_append]
+          constructor
+          · rintro ⟨h1, h2, h3, h4, h5⟩
+            refine ⟨h1, h2, h3, ?_, ?_, h5⟩
+            · intro y hy
+              have := h4 y hy
+              rw [hasKey_false_iff] at this ⊢
+              intro z hz; exact this z (List.mem_append_left _ hz)
+            · intro hm
+              obtain ⟨y, hy, hyk⟩ := List.mem_map.1 hm
+              have := h4 y hy
+              rw [hasKey_false_iff] at this
+              exact this x (by rw [hyk]; simp)
+          · rintro ⟨h1, h2, h3, h4, h5, h6⟩
+            refine ⟨h1, h2, h3, ?_, h6⟩
+            intro y hy
+            rw [hasKey_false_iff]
+            intro z hz
+            rcases List.mem_append.1 hz with hz | hz
+            · exact (hasKey_false_iff _ _).1 (h4 y hy) z hz
+            · simp only [List.mem_singleton, Prod.mk.injEq] at hz
+              exact h5 (List.mem_map.2 ⟨y, hy, hz.1⟩)
+    · simp only [Bool.not_eq_true] at hok
+      simp [hok]
+
+/-- `extend` / `+=` succeeds exactly when every incoming item is admissible and the
+concatenated list still has unique keys; then it is plain `list.extend`. -/
+theorem extend_refines {c : Cfg α κ} {l : KL α κ} (h : Coh c l) (xs : List α) (l' : KL α κ) :
+    extend c l xs = .ok l' ↔
+      ((∀ x ∈ xs, c.okItem x = true) ∧ ((l.list ++ xs).map c.key).Nodup ∧
+        l' = ⟨l.list ++ xs, l.dict ++ xs.map (fun x => (c.key x, x))⟩) := by
+  unfold extend
+  have hkey : ((l.list ++ xs).map c.key).Nodup ↔
+      (xs.map c.key).Nodup ∧ ∀ x ∈ xs, hasKey l.dict (c.key x) = false := by
+    rw [List.map_append, List.nodup_append]
+    constructor
+    · rintro ⟨_, h2, h3⟩
+      refine ⟨h2, ?_⟩
+      intro x hx
+      rw [← Bool.not_eq_true, hasKey_iff_scan h]
+      rintro ⟨y, hy, hyk⟩
+      exact h3 _ (List.mem_map.2 ⟨y, hy, rfl⟩) _ (List.mem_map.2 ⟨x, hx, rfl⟩) hyk
+    · rintro ⟨h2, h3⟩
+      refine ⟨h.keysNodup, h2, ?_⟩
+      intro a ha b hb hab
+      obtain ⟨y, hy, rfl⟩ := List.mem_map.1 ha
+      obtain ⟨x, hx, rfl⟩ := List.mem_map.1 hb
+      have := h3 x hx
+      rw [← Bool.not_eq_true, hasKey_iff_scan h] at this
+      exact this ⟨y, hy, hab⟩
+  cases hst : stage c l xs [] with
+  | error e =>
+    simp only [reduceCtorEq, false_iff]
+    rintro ⟨h1, h2, _⟩
+    rw [hkey] at h2
+    have : stage c l xs [] = .ok ([] ++ xs.map (fun x => (c.key x, x))) :=
+      (stage_ok_iff c l xs [] _).2 ⟨rfl, h1, h2.2, by intro x _; rfl, h2.1⟩
+    rw [hst] at this; cases this
+  | ok st =>
+    obtain ⟨h1, h2, h3, _, h5⟩ := (stage_ok_iff c l xs [] st).1 hst
+    simp only [List.nil_append] at h1
+    subst h1
+    simp only [Except.ok.injEq, List.map_map]
+    have hid : (List.map ((fun p : κ × α => p.2) ∘ fun x => (c.key x, x)) xs) = xs := by
+      simp [Function.comp_def]
+    rw [hid]
+    constructor
+    · intro hl; exact ⟨h2, hkey.2 ⟨h5, h3⟩, hl.symm⟩
+    · rintro ⟨_, _, hl⟩; exact hl.symm
+
+theorem coh_extend {c : Cfg α κ} {l l' : KL α κ} (h : Coh c l) (xs : List α)
+    (he : extend c l xs = .ok l') : Coh c l' := by
+  obtain ⟨hok, hnd, rfl⟩ := (extend_refines h xs l').1 he
+  refine ⟨hnd, ?_, ?_, ?_⟩
+  · intro k y
+    simp only [List.mem_append, List.mem_map, Prod.mk.injEq, h.dictIff]
+    constructor
+    · rintro (⟨hy, hk⟩ | ⟨x, hx, hk, rfl⟩)
+      · exact ⟨Or.inl hy, hk⟩
+      · exact ⟨Or.inr hx, hk⟩
+    · rintro ⟨hy | hy, hk⟩
+      · exact Or.inl ⟨hy, hk⟩
+      · exact Or.inr ⟨y, hy, hk, rfl⟩
+  · have h1 : (l.dict.map (·.1)).Perm (l.list.map c.key) :=
+      (List.perm_ext_iff_of_nodup h.dictNodup h.keysNodup).2 (fun k => keys_is_scan h k)
+    have : ((l.dict ++ xs.map (fun x => (c.key x, x))).map (·.1)).Perm ((l.list ++ xs).map c.key) := by
+      simp only [List.map_append, List.map_map]
+      have hid : (List.map ((fun p : κ × α => p.1) ∘ fun x => (c.key x, x)) xs) = xs.map c.key := by
+        simp [Function.comp_def]
+      rw [hid]
+      exact h1.append_right _
+    exact this.nodup_iff.2 hnd
+  · intro y hy
+    rcases List.mem_append.1 hy with hy | hy
+    · exact h.typed y hy
+    · exact hok y hy
+
+/-! ## reverse, pop, remove, clear -/
+
+theorem coh_reverse {c : Cfg α κ} {l : KL α κ} (h : Coh c l) : Coh c (reverse l) := by
+  refine ⟨?_, ?_, h.dictNodup, ?_⟩
+  · simp only [reverse, List.map_reverse]; exact List.nodup_reverse.2 h.keysNodup
+  · intro k x; simp only [reverse, List.mem_reverse]; exact h.dictIff k x
+  · intro x hx; exact h.typed x (by simpa [reverse] using hx)
+
+theorem reverse_list (l : KL α κ) : (reverse l).list = l.list.reverse := rfl
+
+theorem coh_pop {c : Cfg α κ} {l l' : KL α κ} {v : α} (h : Coh c l) (i : Int)
+    (hp : pop c l i = .ok (v, l')) : Coh c l' := by
+  unfold pop at hp
+  split at hp
+  · cases hp
+  · split at hp
+    · cases hp
+    · rename_i l'' hd
+      cases hp
+      exact coh_delIdx h i hd
+
+/-- `pop(i)` returns `list[i]` and removes that position. -/
+theorem pop_refines {c : Cfg α κ} {l : KL α κ} (i : Int) :
+    pop c l i =
+      match pyIdx l.list.length i with
+      | none => .error .indexError
+      | some k => match l.list[k]? with
+        | none => .error .indexError
+        | some x => .ok (x, ⟨l.list.eraseIdx k, dictDel l.dict (c.key x)⟩) := by
+  unfold pop getIdx delIdx
+  cases h1 : pyIdx l.list.length i with
+  | none => simp
+  | some k => cases h2 : l.list[k]? <;> simp [h2]
+
+theorem coh_remove {c : Cfg α κ} {l l' : KL α κ} (h : Coh c l) (x : α)
+    (hr : remove c l x = .ok l') : Coh c l' := by
+  unfold remove at hr
+  split at hr
+  · cases hr
+  · exact coh_delIdx h _ hr
+
+theorem coh_clear_go {c : Cfg α κ} : ∀ (n : Nat) {l : KL α κ}, Coh c l → Coh c (clear.go c n l)
+  | 0, _, h => h
+  | n + 1, l, h => by
+    unfold clear.go
+    split
+    · exact h
+    · rename_i v l' hp
+      exact coh_clear_go n (coh_pop h _ hp)
+
+theorem coh_clear {c : Cfg α κ} {l : KL α κ} (h : Coh c l) : Coh c (clear c l) :=
+  coh_clear_go _ h
+
+theorem clear_go_list {c : Cfg α κ} : ∀ (n : Nat) (l : KL α κ), l.list.length ≤ n →
+    (clear.go c n l).list = []
+  | 0, l, hn => by
+    unfold clear.go
+    exact List.eq_nil_of_length_eq_zero (Nat.le_zero.1 hn)
+  | n + 1, l, hn => by
+    unfold clear.go
+    rw [pop_refines]
+    cases hl : l.list with
+    | nil => simp [pyIdx, hl]
+    | cons a t =>
+      have hk : pyIdx (a :: t).length (-1) = some t.length := by
+        unfold pyIdx; simp
+      have hlt : t.length < (a :: t).length := by simp
+      simp only [hk, List.getElem?_eq_getElem hlt]
+      apply clear_go_list n
+      simp only [List.length_eraseIdx, hlt, if_true]
+      rw [hl] at hn; simp at hn ⊢; omega
+
+/-- `clear()` empties the list. -/
+theorem clear_list (c : Cfg α κ) (l : KL α κ) : (clear c l).list = [] :=
+  clear_go_list _ _ (Nat.le_refl _)
+
+/-! ## every operation preserves coherence; failures are atomic -/
+
+theorem coh_step {c : Cfg α κ} {l : KL α κ} (h : Coh c l) (op : Op α κ) : Coh c (step c l op).1 := by
+  cases op <;> simp only [step] <;> try exact h
+  case setIdx i x => split <;> [exact coh_setIdx h _ _ ‹_›; exact h]
+  case setKey k x => split <;> [exact coh_setKey h _ _ ‹_›; exact h]
+  case delIdx i => split <;> [exact coh_delIdx h _ ‹_›; exact h]
+  case delKey k => split <;> [exact coh_delKey h _ ‹_›; exact h]
+  case insert i x => split <;> [exact coh_insert h _ _ ‹_›; exact h]
+  case append x => split <;> [exact coh_insert h _ _ ‹_›; exact h]
+  case extend xs => split <;> [exact coh_extend h _ ‹_›; exact h]
+  case iadd xs => split <;> [exact coh_extend h _ ‹_›; exact h]
+  case pop i => split <;> [exact coh_pop h _ ‹_›; exact h]
+  case remove x => split <;> [exact coh_remove h _ ‹_›; exact h]
+  case reverse => exact coh_reverse h
+  case clear => exact coh_clear h
+
+/-- An operation that reports an error leaves the container exactly as it was. -/
+theorem step_atomic (c : Cfg α κ) (l : KL α κ) (op : Op α κ) (e : Err)
+    (he : (step c l op).2 = .err e) : (step c l op).1 = l := by
+  cases op <;> simp only [step] at he ⊢ <;> try rfl
+  all_goals first | cases he | (split at he <;> first | rfl | cases he)
+
+/-- Every state reachable from a coherent one by any operation sequence is coherent. -/
+theorem coh_run {c : Cfg α κ} : ∀ (ops : List (Op α κ)) {l : KL α κ}, Coh c l → Coh c (run c l ops).1
+  | [], _, h => h
+  | op :: ops, l, h => by
+    simp only [run]
+    exact coh_run ops (coh_step h op)
+
+/-- Construction from a sequence yields a coherent container (or raises). -/
+theorem coh_ofList {c : Cfg α κ} : ∀ (xs : List α) {l l' : KL α κ}, Coh c l →
+    ofList c xs l = .ok l' → Coh c l'
+  | [], _, _, h, he => by simp only [ofList] at he; cases he; exact h
+  | x :: xs, l, l', h, he => by
+    simp only [ofList] at he
+    split at he
+    · cases he
+    · rename_i l'' hi
+      exact coh_ofList xs (coh_insert h _ _ hi) he
+
+/-! ## construction, `+`, slices -/
+
+/-- `KeyedList(xs)` (appending to a coherent prefix) succeeds exactly when every item is
+admissible and the keys stay unique; the result lists the items in order. -/
+theorem ofList_refines {c : Cfg α κ} : ∀ (xs : List α) {l : KL α κ} (l' : KL α κ), Coh c l →
+    (ofList c xs l = .ok l' →
+      l'.list = l.list ++ xs ∧ (∀ x ∈ xs, c.okItem x = true) ∧ ((l.list ++ xs).map c.key).Nodup)
+  | [], l, l', h => by
+    intro he; simp only [ofList] at he; cases he
+    simpa using h.keysNodup
+  | x :: xs, l, l', h => by
+    intro he
+    simp only [ofList] at he
+    split at he
+    · cases he
+    · rename_i l'' hi
+      have hc := coh_insert h _ _ hi
+      have hl : l''.list = l.list ++ [x] := append_list h x hi
+      have hokx : c.okItem x = true := by
+        have := hc.typed x (by rw [hl]; simp)
+        exact this
+      obtain ⟨h1, h2, h3⟩ := ofList_refines xs l' hc he
+      rw [hl] at h1 h3
+      refine ⟨by simpa using h1, ?_, by simpa using h3⟩
+      intro y hy
+      rcases List.mem_cons.1 hy with hy | hy
+      · subst hy; exact hokx
+      · exact h2 y hy
+
+/-- Conversely, construction cannot fail when items are admissible and keys unique. -/
+theorem ofList_complete {c : Cfg α κ} : ∀ (xs : List α) {l : KL α κ}, Coh c l →
+    (∀ x ∈ xs, c.okItem x = true) → ((l.list ++ xs).map c.key).Nodup →
+    ∃ l', ofList c xs l = .ok l'
+  | [], l, _, _, _ => ⟨l, rfl⟩
+  | x :: xs, l, h, hok, hnd => by
+    simp only [ofList]
+    have hi : insertAt c l (Int.ofNat l.list.length) x =
+        .ok ⟨pyInsert l.list (Int.ofNat l.list.length) x, dictAdd l.dict (c.key x) x⟩ := by
+      rw [insert_refines h]
+      have h1 : c.okItem x = true := hok x (by simp)
+      have h2 : ¬ ∃ y ∈ l.list, c.key y = c.key x := by
+        rintro ⟨y, hy, hk⟩
+        rw [List.map_append, List.nodup_append] at hnd
+        exact hnd.2.2 _ (List.mem_map.2 ⟨y, hy, rfl⟩) _ (List.mem_map.2 ⟨x, by simp, rfl⟩) hk
+      simp [h1, h2]
+    rw [hi]
+    have hc := coh_insert h _ _ hi
+    apply ofList_complete xs hc (fun y hy => hok y (List.mem_cons_of_mem _ hy))
+    simp only [pyInsert_length]
+    simpa using hnd
+
+/-- `self + other`: a plain concatenation, ValueError/TypeError exactly when keys collide. -/
+theorem add_refines {c : Cfg α κ} {l : KL α κ} (xs : List α) :
+    (∀ r, add c l xs = .ok r → r.list = l.list ++ xs) ∧
+    (((l.list ++ xs).map c.key).Nodup → ∃ r, add c l xs = .ok r) ∧
+    ((∃ r, add c l xs = .ok r) → ((l.list ++ xs).map c.key).Nodup) := by
+  unfold add
+  have he : Coh { c with okItem := fun _ => true } (KL.empty : KL α κ) := coh_empty _
+  refine ⟨?_, ?_, ?_⟩
+  · intro r hr
+    have := (ofList_refines (l.list ++ xs) r he hr).1
+    simpa [KL.empty] using this
+  · intro hnd
+    exact ofList_complete (l.list ++ xs) he (fun _ _ => rfl) (by simpa [KL.empty] using hnd)
+  · rintro ⟨r, hr⟩
+    have := (ofList_refines (l.list ++ xs) r he hr).2.2
+    simpa [KL.empty] using this
+
+/-- A slice of a coherent list is a KeyedList holding exactly the plain-list slice. -/
+theorem getSlice_refines {c : Cfg α κ} {l : KL α κ} (h : Coh c l) (a b : Option Int) :
+    ∃ r, getSlice c l a b = .ok r ∧ r.list = pySlice l.list a b := by
+  unfold getSlice
+  have he : Coh { c with okItem := fun _ => true } (KL.empty : KL α κ) := coh_empty _
+  have hsub : (pySlice l.list a b).Sublist l.list := by
+    unfold pySlice
+    exact (List.drop_sublist _ _).trans (List.take_sublist _ _)
+  have hnd : (((KL.empty : KL α κ).list ++ pySlice l.list a b).map c.key).Nodup := by
+    simp only [KL.empty, List.nil_append]
+    exact List.Nodup.sublist (hsub.map c.key) h.keysNodup
+  obtain ⟨r, hr⟩ := ofList_complete (c := { c with okItem := fun _ => true })
+    (pySlice l.list a b) he (fun _ _ => rfl) hnd
+  refine ⟨r, hr, ?_⟩
+  have := (ofList_refines _ r he hr).1
+  simpa [KL.empty] using this
+
+/-! ## the refinement theorem: a plain list with one extra rule -/
+
+/-- SPEC. What a plain Python list holding the same items does for each operation,
+plus the single uniqueness rule. `none` = the operation raises (and changes nothing);
+`some xs'` = it succeeds and the list is `xs'` afterwards. -/
+def specStep (c : Cfg α κ) (xs : List α) : Op α κ → Option (List α)
+  | .getIdx i => (pyIdx xs.length i).map fun _ => xs
+  | .getKey k => (xs.find? (fun x => c.key x == k)).map fun _ => xs
+  | .getSlice _ _ => some xs
+  | .setIdx i x => (pyIdx xs.length i).bind fun k =>
+      if c.okItem x = true ∧ ((xs.set k x).map c.key).Nodup then some (xs.set k x) else none
+  | .setKey k x => (xs.findIdx? (fun y => c.key y == k)).bind fun i =>
+      if c.okItem x = true ∧ ((xs.set i x).map c.key).Nodup then some (xs.set i x) else none
+  | .setSlice => none
+  | .delIdx i => (pyIdx xs.length i).map fun k => xs.eraseIdx k
+  | .delKey k => (xs.findIdx? (fun y => c.key y == k)).map fun i => xs.eraseIdx i
+  | .delSlice => none
+  | .insert i x =>
+      if c.okItem x = true ∧ ((pyInsert xs i x).map c.key).Nodup then some (pyInsert xs i x) else none
+  | .append x =>
+      if c.okItem x = true ∧ ((xs ++ [x]).map c.key).Nodup then some (xs ++ [x]) else none
+  | .extend ys =>
+      if (∀ y ∈ ys, c.okItem y = true) ∧ ((xs ++ ys).map c.key).Nodup then some (xs ++ ys) else none
+  | .iadd ys =>
+      if (∀ y ∈ ys, c.okItem y = true) ∧ ((xs ++ ys).map c.key).Nodup then some (xs ++ ys) else none
+  | .pop i => (pyIdx xs.length (i.getD (-1))).map fun k => xs.eraseIdx k
+  | .remove x => (xs.findIdx? (fun y => y == x)).map fun i => xs.eraseIdx i
+  | .reverse => some xs.reverse
+  | .clear => some []
+  | .add ys => if ((xs ++ ys).map c.key).Nodup then some xs else none
+  | .radd ys => if ((ys ++ xs).map c.key).Nodup then some xs else none
+  | .index x => (xs.findIdx? (fun y => y == x)).map fun _ => xs
+  | .indexForKey k => (xs.findIdx? (fun y => c.key y == k)).map fun _ => xs
+  | .containsItem _ | .containsKey _ | .count _ | .get _ | .len | .iter | .keys | .items
+  | .eqList _ => some xs
+
+theorem nodup_insert_iff {c : Cfg α κ} {l : KL α κ} (h : Coh c l) (i : Int) (x : α) :
+    ((pyInsert l.list i x).map c.key).Nodup ↔ ¬ ∃ y ∈ l.list, c.key y = c.key x := by
+  rw [((perm_pyInsert l.list i x).map c.key).nodup_iff, List.map_cons, List.nodup_cons]
+  constructor
+  · rintro ⟨h1, _⟩ ⟨y, hy, hk⟩
+    exact h1 (List.mem_map.2 ⟨y, hy, hk⟩)
+  · intro h1
+    refine ⟨?_, h.keysNodup⟩
+    intro hm
+    obtain ⟨y, hy, hk⟩ := List.mem_map.1 hm
+    exact h1 ⟨y, hy, hk⟩
+
+theorem nodup_set_iff {c : Cfg α κ} {l : KL α κ} (h : Coh c l) (k : Nat) (hk : k < l.list.length) (x : α) :
+    ((l.list.set k x).map c.key).Nodup ↔
+      ¬ ∃ j y, j ≠ k ∧ l.list[j]? = some y ∧ c.key y = c.key x := by
+  have hnd := nodup_of_nodup_map_key c.key h.keysNodup
+  rw [((perm_set_eraseIdx l.list k hk x).map c.key).nodup_iff, List.map_cons, List.nodup_cons]
+  have hsub : ((l.list.eraseIdx k).map c.key).Nodup :=
+    List.Nodup.sublist ((List.eraseIdx_sublist _ _).map c.key) h.keysNodup
+  constructor
+  · rintro ⟨h1, _⟩ ⟨j, y, hjk, hy, hyk⟩
+    apply h1
+    refine List.mem_map.2 ⟨y, ?_, hyk⟩
+    rw [mem_eraseIdx_of_nodup l.list k hk hnd]
+    refine ⟨List.mem_of_getElem? hy, ?_⟩
+    intro hyo
+    have hjlt : j < l.list.length := by
+      rcases Nat.lt_or_ge j l.list.length with hh | hh
+      · exact hh
+      · simp [List.getElem?_eq_none hh] at hy
+    have hyj : l.list[j] = y := by
+      have : l.list[j]? = some l.list[j] := by simp [hjlt]
+      rw [this] at hy; exact Option.some.inj hy
+    exact hjk ((List.Nodup.getElem_inj_iff hnd).1 (hyj.trans hyo))
+  · intro h1
+    refine ⟨?_, hsub⟩
+    intro hm
+    obtain ⟨y, hy, hyk⟩ := List.mem_map.1 hm
+    obtain ⟨hy1, hy2⟩ := (mem_eraseIdx_of_nodup l.list k hk hnd y).1 hy
+    rcases List.getElem_of_mem hy1 with ⟨j, hj, rfl⟩
+    apply h1
+    refine ⟨j, l.list[j], ?_, by simp [hj], hyk⟩
+    intro hjk; subst hjk; exact hy2 rfl
+
+/-- **Refinement.** On a coherent container every operation does to the list exactly what
+the plain-list specification `specStep` says: when the plain operation (with the
+uniqueness and admissibility rule) succeeds, the KeyedList succeeds with that list; when it
+raises, the KeyedList raises and is left exactly as it was. -/
+theorem step_refines_list {c : Cfg α κ} {l : KL α κ} (h : Coh c l) (op : Op α κ) :
+    match specStep c l.list op with
+    | some xs' => (step c l op).1.list = xs' ∧ ∀ e, (step c l op).2 ≠ .err e
+    | none => (step c l op).1 = l ∧ ∃ e, (step c l op).2 = .err e := by
+  cases op with
+  | getIdx i =>
+    simp only [specStep, step, getIdx]
+    cases hk : pyIdx l.list.length i with
+    | none => simp
+    | some k => simp [List.getElem?_eq_getElem (pyIdx_lt hk)]
+  | getKey k =>
+    simp only [specStep, step, getKey, getKey_is_scan h]
+    cases l.list.find? (fun x => c.key x == k) <;> simp
+  | getSlice a b =>
+    obtain ⟨r, hr, _⟩ := getSlice_refines h a b
+    simp [specStep, step, hr]
+  | setIdx i x =>
+    simp only [specStep, step]
+    rw [setIdx_refines h]
+    cases hk : pyIdx l.list.length i with
+    | none => simp
+    | some k =>
+      have hns : ((List.map c.key l.list).set k (c.key x)).Nodup ↔
+          ¬ ∃ j y, j ≠ k ∧ l.list[j]? = some y ∧ c.key y = c.key x := by
+        rw [← List.map_set]; exact nodup_set_iff h k (pyIdx_lt hk) x
+      simp only [Option.bind_some]
+      by_cases hok : c.okItem x = true
+      · by_cases hd : ∃ j y, j ≠ k ∧ l.list[j]? = some y ∧ c.key y = c.key x
+        · rw [if_neg (by rintro ⟨_, hn⟩; exact ((nodup_set_iff h k (pyIdx_lt hk) x).1 hn) hd)]
+          simp only [hok, Bool.true_eq_false, if_false, if_pos hd]
+          simp
+        · rw [if_pos ⟨hok, (nodup_set_iff h k (pyIdx_lt hk) x).2 hd⟩]
+          simp only [hok, Bool.true_eq_false, if_false, if_neg hd]
+          simp
+      · simp only [Bool.not_eq_true] at hok; simp [hok]
+  | setKey k x =>
+    simp only [specStep, step, setKey]
+    rw [indexForKey_is_scan h]
+    cases hf : l.list.findIdx? (fun y => c.key y == k) with
+    | none => simp
+    | some i =>
+      have hlt : i < l.list.length := by
+        obtain ⟨y, hy, _⟩ := (findIdx?_key_eq_some_iff c.key h.keysNodup k i).1 hf
+        rcases Nat.lt_or_ge i l.list.length with hh | hh
+        · exact hh
+        · simp [List.getElem?_eq_none hh] at hy
+      have hk : pyIdx l.list.length (Int.ofNat i) = some i := by
+        unfold pyIdx; simp [hlt]
+      have hk' : pyIdx l.list.length ((i : Nat) : Int) = some i := hk
+      simp only [Option.bind_some]
+      rw [setIdx_refines h, hk]
+      have hns : ((List.map c.key l.list).set i (c.key x)).Nodup ↔
+          ¬ ∃ j y, j ≠ i ∧ l.list[j]? = some y ∧ c.key y = c.key x := by
+        rw [← List.map_set]; exact nodup_set_iff h i hlt x
+      by_cases hok : c.okItem x = true
+      · by_cases hd : ∃ j y, j ≠ i ∧ l.list[j]? = some y ∧ c.key y = c.key x
+        · rw [if_neg (by rintro ⟨_, hn⟩; exact ((nodup_set_iff h i hlt x).1 hn) hd)]
+          simp only [hok, Bool.true_eq_false, if_false, if_pos hd]
+          simp
+        · rw [if_pos ⟨hok, (nodup_set_iff h i hlt x).2 hd⟩]
+          simp only [hok, Bool.true_eq_false, if_false, if_neg hd]
+          simp
+      · simp only [Bool.not_eq_true] at hok; simp [hok]
+  | setSlice => simp [specStep, step]
+  | delIdx i =>
+    simp only [specStep, step, delIdx]
+    cases hk : pyIdx l.list.length i with
+    | none => simp
+    | some k => simp [List.getElem?_eq_getElem (pyIdx_lt hk)]
+  | delKey k =>
+    simp only [specStep, step]
+    rw [delKey_refines h]
+    cases hf : l.list.findIdx? (fun y => c.key y == k) with
+    | none => simp
+    | some i =>
+      have hlt : i < l.list.length := by
+        obtain ⟨y, hy, _⟩ := (findIdx?_key_eq_some_iff c.key h.keysNodup k i).1 hf
+        rcases Nat.lt_or_ge i l.list.length with hh | hh
+        · exact hh
+        · simp [List.getElem?_eq_none hh] at hy
+      have hk : pyIdx l.list.length (Int.ofNat i) = some i := by
+        unfold pyIdx; simp [hlt]
+      have hk' : pyIdx l.list.length ((i : Nat) : Int) = some i := hk
+      simp [delIdx, hk', List.getElem?_eq_getElem hlt]
+  | delSlice => simp [specStep, step]
+  | insert i x =>
+    simp only [specStep, step]
+    rw [insert_refines h]
+    by_cases hok : c.okItem x = true
+    · by_cases hd : ∃ y ∈ l.list, c.key y = c.key x
+      · rw [if_neg (by rintro ⟨_, hn⟩; exact ((nodup_insert_iff h i x).1 hn) hd)]
+        simp only [hok, Bool.true_eq_false, if_false, if_pos hd]
+        simp
+      · rw [if_pos ⟨hok, (nodup_insert_iff h i x).2 hd⟩]
+        simp only [hok, Bool.true_eq_false, if_false, if_neg hd]
+        simp
+    · simp only [Bool.not_eq_true] at hok; simp [hok]
+  | append x =>
+    simp only [specStep, step, append]
+    rw [insert_refines h]
+    by_cases hok : c.okItem x = true
+    · by_cases hd : ∃ y ∈ l.list, c.key y = c.key x
+      · rw [if_neg (by
+          rintro ⟨_, hn⟩
+          rw [← pyInsert_length] at hn
+          exact ((nodup_insert_iff h _ x).1 hn) hd)]
+        simp only [hok, Bool.true_eq_false, if_false, if_pos hd]
+        simp
+      · rw [if_pos ⟨hok, by rw [← pyInsert_length]; exact (nodup_insert_iff h _ x).2 hd⟩]
+        simp only [hok, Bool.true_eq_false, if_false, if_neg hd]
+        exact ⟨pyInsert_length _ _, fun e he => by cases he⟩
+    · simp only [Bool.not_eq_true] at hok; simp [hok]
+  | extend ys =>
+    simp only [specStep, step]
+    cases he : extend c l ys with
+    | ok l' =>
+      obtain ⟨h1, h2, rfl⟩ := (extend_refines h ys l').1 he
+      rw [if_pos ⟨h1, h2⟩]
+      simp
+    | error e =>
+      have : ¬ ((∀ y ∈ ys, c.okItem y = true) ∧ ((l.list ++ ys).map c.key).Nodup) := by
+        rintro ⟨h1, h2⟩
+        have := (extend_refines h ys ⟨l.list ++ ys, l.dict ++ ys.map (fun x => (c.key x, x))⟩).2 ⟨h1, h2, rfl⟩
+        rw [he] at this; cases this
+      rw [if_neg this]
+      simp
+  | iadd ys =>
+    simp only [specStep, step]
+    cases he : extend c l ys with
+    | ok l' =>
+      obtain ⟨h1, h2, rfl⟩ := (extend_refines h ys l').1 he
+      rw [if_pos ⟨h1, h2⟩]
+      simp
+    | error e =>
+      have : ¬ ((∀ y ∈ ys, c.okItem y = true) ∧ ((l.list ++ ys).map c.key).Nodup) := by
+        rintro ⟨h1, h2⟩
+        have := (extend_refines h ys ⟨l.list ++ ys, l.dict ++ ys.map (fun x => (c.key x, x))⟩).2 ⟨h1, h2, rfl⟩
+        rw [he] at this; cases this
+      rw [if_neg this]
+      simp
+  | pop i =>
+    simp only [specStep, step]
+    rw [pop_refines]
+    cases hk : pyIdx l.list.length (i.getD (-1)) with
+    | none => simp
+    | some k => simp [List.getElem?_eq_getElem (pyIdx_lt hk)]
+  | remove x =>
+    simp only [specStep, step, remove, indexOf]
+    cases hf : l.list.findIdx? (fun y => y == x) with
+    | none => simp
+    | some i =>
+      have hlt : i < l.list.length := by
+        have := List.findIdx?_eq_some_iff_getElem.1 hf
+        exact this.1
+      have hk : pyIdx l.list.length (Int.ofNat i) = some i := by
+        unfold pyIdx; simp [hlt]
+      have hk' : pyIdx l.list.length ((i : Nat) : Int) = some i := hk
+      simp [delIdx, hk', List.getElem?_eq_getElem hlt]
+  | reverse => simp [specStep, step, reverse]
+  | clear => simp [specStep, step, clear_list]
+  | add ys =>
+    simp only [specStep, step]
+    obtain ⟨_, h2, h3⟩ := add_refines (c := c) (l := l) ys
+    by_cases hnd : ((l.list ++ ys).map c.key).Nodup
+    · obtain ⟨r, hr⟩ := h2 hnd
+      rw [if_pos hnd, hr]
+      simp
+    · rw [if_neg hnd]
+      cases hr : add c l ys with
+      | ok r => exact absurd (h3 ⟨r, hr⟩) hnd
+      | error e => simp
+  | radd ys =>
+    simp only [specStep, step, radd]
+    have he : Coh { c with okItem := fun _ => true } (KL.empty : KL α κ) := coh_empty _
+    by_cases hnd : ((ys ++ l.list).map c.key).Nodup
+    · obtain ⟨r, hr⟩ := ofList_complete (c := { c with okItem := fun _ => true }) (ys ++ l.list) he
+        (fun _ _ => rfl) (by simpa [KL.empty] using hnd)
+      rw [if_pos hnd, hr]
+      simp
+    · rw [if_neg hnd]
+      cases hr : ofList { c with okItem := fun _ => true } (ys ++ l.list) KL.empty with
+      | ok r =>
+        have := (ofList_refines _ r he hr).2.2
+        exact absurd (by simpa [KL.empty] using this) hnd
+      | error e => simp
+  | index x =>
+    simp only [specStep, step, indexOf]
+    cases l.list.findIdx? (fun y => y == x) <;> simp
+  | indexForKey k =>
+    simp only [specStep, step]
+    rw [indexForKey_is_scan h]
+    cases l.list.findIdx? (fun y => c.key y == k) <;> simp
+  | containsItem x => simp [specStep, step]
+  | containsKey k => simp [specStep, step]
+  | count x => simp [specStep, step]
+  | get k => simp [specStep, step]
+  | len => simp [specStep, step]
+  | iter => simp [specStep, step]
+  | keys => simp [specStep, step]
+  | items => simp [specStep, step]
+  | eqList xs => simp [specStep, step]
+
+/-- Lifted to operation sequences of any length: running the KeyedList and running the
+plain-list specification from the same list keep the same list. -/
+def specRun (c : Cfg α κ) : List α → List (Op α κ) → List α
+  | xs, [] => xs
+  | xs, op :: ops => specRun c ((specStep c xs op).getD xs) ops
+
+theorem run_refines_list {c : Cfg α κ} : ∀ (ops : List (Op α κ)) {l : KL α κ}, Coh c l →
+    (run c l ops).1.list = specRun c l.list ops
+  | [], _, _ => rfl
+  | op :: ops, l, h => by
+    simp only [run, specRun]
+    have hs := step_refines_list h op
+    have hc := coh_step h op
+    rw [run_refines_list ops hc]
+    cases hsp : specStep c l.list op with
+    | none => rw [hsp] at hs; simp [hs.1]
+    | some xs' => rw [hsp] at hs; simp [hs.1]
+
+/-! ## non-vacuity: a concrete coherent container and a failing/succeeding operation -/
+
+private def exCfg : Cfg (Nat × Nat) Nat := { key := (·.1), okItem := fun _ => true, asKey := fun _ => none }
+private def exKL : KL (Nat × Nat) Nat := ⟨[(1, 10), (2, 20)], [(1, (1, 10)), (2, (2, 20))]⟩
+
+example : Coh exCfg exKL := by
+  refine ⟨by decide, ?_, by decide, by intro x _; rfl⟩
+  intro k x
+  constructor
+  · intro h
+    simp [exKL] at h
+    rcases h with ⟨rfl, rfl⟩ | ⟨rfl, rfl⟩ <;> simp [exKL, exCfg]
+  · rintro ⟨h, rfl⟩
+    simp [exKL] at h
+    rcases h with rfl | rfl <;> simp [exKL, exCfg]
+example : (step exCfg exKL (.setIdx (-1) (1, 99))).2 = .err .valueError := by rfl
+example : (step exCfg exKL (.setIdx (-1) (2, 99))).1.list = [(1, 10), (2, 99)] := by rfl
+example : (step exCfg exKL (.extend [(3, 0), (1, 0)])).1 = exKL := by rfl
+example : specStep exCfg exKL.list (.setIdx (-1) (1, 99)) = none := by decide
+
 end SpecVerif.Props.C13
